@@ -235,16 +235,28 @@ def idlock_obligation(chk, prop):
     by defer, and nothing else uses the lock manager (Gen/SessShape.v,
     regenerated from the source). Returns True if the obligation holds."""
     ok, log_, _ = vlib.coq_build(["Properties/Shape"])
-    res = vlib.print_assumptions("Properties.Shape", ["idlock_uses_pinned"])[0] if ok else None
-    good = bool(res) and res.get("idlock_uses_pinned") == "Closed under the global context"
-    chk.oblige("idlock_uses_pinned: Start and LogIn lock the session ID and unlock by defer; no other use of the per-ID lock (Gen/SessShape.v)", good)
+    names = ["idlock_uses_pinned", "lock_events_pinned", "start_lock_precedes_get", "login_lock_brackets_regenerate"]
+    res = vlib.print_assumptions("Properties.Shape", names)[0] if ok else None
+    closed = lambda n: bool(res) and res.get(n) == "Closed under the global context"
+    texts = {
+        "idlock_uses_pinned": "Start and LogIn lock the session ID and unlock by defer; no other use of the per-ID lock (Gen/SessShape.v)",
+        "lock_events_pinned": "the ordered lock/table/call events of Start and LogIn are those the model was written against (Gen/LockPos.v)",
+        "start_lock_precedes_get": "in Start, Lock(id) and its deferred Unlock(id) immediately precede the first sessions.Get(id), in one block, with nothing but inert statements before",
+        "login_lock_brackets_regenerate": "in LogIn, Lock(id) and its deferred Unlock(id) immediately precede RegenerateID",
+    }
+    good = True
+    for n in names:
+        chk.oblige("%s: %s" % (n, texts[n]), closed(n))
+        good = good and closed(n)
     if not good:
-        try:
-            gen = open(os.path.join(vlib.COQ, "Gen", "SessShape.v")).read()
-            uses = gen[gen.index("Definition idlock_uses"):][:1500]
-        except (OSError, ValueError):
-            uses = ""
-        chk.violation({"property": prop, "no_longer_checks": "Properties/Shape.v: idlock_uses_pinned - the per-ID lock is no longer taken and released (by defer) around Start's lookup-validate-rotate step and LogIn's ID change as the proofs assume",
+        uses = ""
+        for f, d in (("SessShape.v", "Definition idlock_uses"), ("LockPos.v", "Definition lock_events")):
+            try:
+                gen = open(os.path.join(vlib.COQ, "Gen", f)).read()
+                uses += gen[gen.index(d):][:1500] + "\n"
+            except (OSError, ValueError):
+                pass
+        chk.violation({"property": prop, "no_longer_checks": "Properties/Shape.v: idlock_uses_pinned / lock_events_pinned / start_lock_precedes_get / login_lock_brackets_regenerate - the per-ID lock is no longer taken (and released by defer) immediately before Start's lookup-validate-rotate step and LogIn's ID change, which is what reduces concurrent requests on one ID to the serial compositions the theorems are about",
                        "current_uses": uses, "log": log_[-1500:]}, no_input=True)
     return good
 
